@@ -126,34 +126,36 @@ func (p *Prog) refine() *refined {
 			phaseA[s.ci] = fns
 		}
 	}
-	// structural callers of each closure G: sites whose complete callee set contains G, provided every VTA caller site
-	// of G in repo code is complete
+	// the yield functions a closure G may receive: the func-typed arguments at every repo site that VTA (an
+	// over-approximation) lists as a possible caller of G. Which iterator a site really calls may be imprecise; what it
+	// passes is visible at the site. G is resolvable when the arguments of all those sites trace completely to closures.
 	yieldArgs := map[*ssa.Function][]ssa.Value{}
 	callersOK := map[*ssa.Function]bool{}
+	argsOf := map[*ssa.Function][]ssa.Value{}
 	for _, s := range sites {
-		for _, g := range p.vtaCallees(s.ci) {
+		callees := p.vtaCallees(s.ci)
+		if fns, ok := phaseA[s.ci]; ok {
+			callees = fns // the site's callee set is known exactly
+		}
+		for _, g := range callees {
 			if _, ok := callersOK[g]; !ok {
 				callersOK[g] = true
 			}
-			if _, complete := phaseA[s.ci]; !complete {
-				callersOK[g] = false
+			for _, a := range s.ci.Common().Args {
+				if _, isSig := a.Type().Underlying().(*types.Signature); !isSig {
+					continue
+				}
+				if _, complete := p.funcValueRoots(a, nil); !complete {
+					callersOK[g] = false
+					continue
+				}
+				argsOf[g] = append(argsOf[g], a)
 			}
 		}
 	}
-	for _, s := range sites {
-		for _, g := range phaseA[s.ci] {
-			if !callersOK[g] {
-				continue
-			}
-			// func-typed arguments handed to g at this site (the yield function)
-			for _, a := range s.ci.Common().Args {
-				if _, isSig := a.Type().Underlying().(*types.Signature); isSig {
-					yieldArgs[g] = append(yieldArgs[g], a)
-				}
-			}
-			if _, ok := yieldArgs[g]; !ok {
-				yieldArgs[g] = nil
-			}
+	for g, ok := range callersOK {
+		if ok {
+			yieldArgs[g] = argsOf[g]
 		}
 	}
 	// functions and methods that take a function value and are only ever called statically (an iterator written as a
